@@ -408,6 +408,91 @@ func runC16(c *Ctx) {
 		}
 	}
 
+	// ---- R16b (cont.): AttributeList.Bytes encodes the list itself, marshalUnsortedSet only re-tags
+	if fn := p.Func("lib/pkcs7.(*AttributeList).Bytes"); fn == nil {
+		c.Undecided("R16b", "(*AttributeList).Bytes", "-", "function not found")
+	} else {
+		c.Analysed(p.FName(fn))
+		ok := false
+		calls := p.callsIn(fn, "lib/pkcs7.marshalUnsortedSet")
+		if len(calls) == 1 {
+			arg := stripConv(calls[0].Common().Args[0])
+			if l, isLoad := arg.(*ssa.UnOp); isLoad && l.X == ssa.Value(fn.Params[0]) {
+				ok = true
+			}
+		}
+		nCalls := 0
+		for _, b := range fn.Blocks {
+			for _, in := range b.Instrs {
+				if _, isCall := in.(ssa.CallInstruction); isCall {
+					nCalls++
+				}
+			}
+		}
+		c.Check(ok && nCalls == 1, "R16b", p.FName(fn)+" encodes the list as it is", p.Pos(fn.Pos()), "return marshalUnsortedSet(*l)", "the bytes that are digested are not the encoding of the attribute list itself (it is copied, reordered or rewritten first), so what is signed differs from what is emitted")
+	}
+	if fn := p.Func("lib/pkcs7.marshalUnsortedSet"); fn == nil {
+		c.Undecided("R16b", "pkcs7.marshalUnsortedSet", "-", "function not found")
+	} else {
+		c.Analysed(p.FName(fn))
+		ms := p.callsIn(fn, "encoding/asn1.Marshal")
+		ok := len(ms) == 1 && ms[0].Common().Args[0] == ssa.Value(fn.Params[0])
+		// the only byte written is the tag byte
+		for _, b := range fn.Blocks {
+			for _, in := range b.Instrs {
+				if st, isSt := in.(*ssa.Store); isSt {
+					if ia, isIA := st.Addr.(*ssa.IndexAddr); isIA {
+						if !isIntConst(ia.Index, 0) {
+							ok = false
+						}
+					}
+				}
+			}
+		}
+		for _, r := range p.successReturns(fn) {
+			src, idx := resultOf(retVal(r, 0))
+			if len(ms) != 1 || src != ms[0] || idx != 0 {
+				ok = false
+			}
+		}
+		c.Check(ok, "R16b", p.FName(fn)+" only re-tags", p.Pos(fn.Pos()), "asn1.Marshal(v) with byte 0 changed from SEQUENCE to SET", "marshalUnsortedSet does more than change the tag of asn1.Marshal's output")
+	}
+
+	// ---- R16c (cont.): both required attributes are added on EVERY path with authenticated
+	// attributes that reaches the key
+	if sb != nil {
+		signs := p.callsIn(sb, "(crypto.Signer).Sign")
+		nnFalse := passEdges(sb, Guard{Match: func(f Fact) bool {
+			_, fld, _ := p.fieldLoad(f.V)
+			return f.Kind == IsNil && fld == "authAttrs"
+		}})
+		for _, ci := range p.callsIn(sb, "(*lib/pkcs7.AttributeList).Add") {
+			oid := p.memKey(ci.Common().Args[1])
+			if oid != "g:lib/pkcs7.OidAttributeContentType" && oid != "g:lib/pkcs7.OidAttributeMessageDigest" {
+				continue
+			}
+			del := map[edge]bool{}
+			for e := range nnFalse {
+				del[e] = true
+			}
+			for _, pb := range ci.Block().Preds {
+				for si, s2 := range pb.Succs {
+					if s2 == ci.Block() {
+						del[edge{pb.Index, si}] = true
+					}
+				}
+			}
+			bad := false
+			seen := reach(sb, []*ssa.BasicBlock{sb.Blocks[0]}, del, nil)
+			for _, sg := range signs {
+				if seen[sg.Block().Index] && sg.Block() != ci.Block() {
+					bad = true
+				}
+			}
+			c.Check(!bad && len(signs) == 1, "R16c", "builder always adds "+oid[len("g:lib/pkcs7."):]+" before signing", p.Pos(ci.Pos()), "with authenticated attributes, the key is reached only through this Add", "the key can be reached with authenticated attributes present but without adding this required attribute on that path (the two required attributes get out of step, e.g. on a retried Sign())")
+		}
+	}
+
 	// ---- R16g: parsed content is carried through the builder untouched
 	c.Rule("R16g", "a ContentInfo handed to the builder is stored, digested and emitted as it is", 2)
 	if fn := p.Func("lib/pkcs7.(*SignatureBuilder).SetContentInfo"); fn == nil {
@@ -443,6 +528,31 @@ func runC16(c *Ctx) {
 			}
 		}
 		c.Check(okEmit, "R16g", p.FName(sb)+" emits the stored ContentInfo", p.Pos(sb.Pos()), "SignedData.ContentInfo = sb.contentInfo", "the emitted ContentInfo is not the one that was digested")
+	}
+
+	// re-signing a parsed SignedData: the parsed ContentInfo goes to the builder as it is
+	for _, fn := range p.Funcs {
+		ums := p.callsIn(fn, "lib/pkcs7.Unmarshal")
+		nbs := p.callsIn(fn, "lib/pkcs7.NewBuilder")
+		if len(ums) == 0 || len(nbs) == 0 {
+			continue
+		}
+		c.Analysed(p.FName(fn))
+		reenc := p.callsIn(fn, "(*lib/pkcs7.SignatureBuilder).SetContent", "(*lib/pkcs7.SignatureBuilder).SetContentData")
+		okSet := false
+		for _, ci := range p.callsIn(fn, "(*lib/pkcs7.SignatureBuilder).SetContentInfo") {
+			arg := ci.Common().Args[1]
+			if dependsOn(arg, func(x ssa.Value) bool {
+				src, idx := resultOf(x)
+				return src == ums[0] && idx == 0
+			}) {
+				_, f, _ := p.fieldLoad(stripConv(arg))
+				if f == "ContentInfo" {
+					okSet = true
+				}
+			}
+		}
+		c.Check(okSet && len(reenc) == 0, "R16g", p.FName(fn)+" re-signs the parsed content verbatim", p.Pos(fn.Pos()), "SetContentInfo(parsed.Content.ContentInfo)", "a parsed SignedData is re-signed over re-encoded content (SetContent/SetContentData of a decoded struct) instead of the original ContentInfo bytes: catalogs from other encoders change under the new signature")
 	}
 
 	// ---- R16f
